@@ -18,6 +18,17 @@ def T(quick, thorough, floor=200, **kw):
 
 
 PROPS = {
+    "C17": T(2500, 60000, sites=["serde_link_edges_graph", "serde_link_edges_stable"],
+             t={"legs": ["debug", "release", "asan"], "asan_cases_per_shard": 8000},
+             rule="six workload kinds: (1) round trips of StableGraphs reached by mutation histories (vacancies frequent) through JSON "
+                  "and bincode, 2 edge types x 4 index widths, loaded back as StableGraph and as Graph, plus the compact Graph copy "
+                  "loaded as Graph and as StableGraph, wrong-edge-property loads; (2) String / () / Option<i8> weights and GraphMap; "
+                  "(3) u8 graphs with 253-255 nodes and 250-255 edges; (4) structural JSON mutations (endpoint := hole/bound/beyond, "
+                  "duplicate/unsorted/excess/out-of-range holes, null edges, flipped edge_property, truncated arrays, wrong types, "
+                  "malformed tuples, removed fields); (5) u8 streams with 245-258 nodes, 0-13 holes and up to 257 edge slots; (6) "
+                  "bincode bit flips, truncation, byte edits, splices; every accepted value is swept against the model read off it, "
+                  "raw free-list invariants and boundary probes are run and ~10 further operations applied; non-trivial = source "
+                  "graph has >=2 nodes; distinct = hash of the (mutated) stream"),
     "C07": T(700, 18000,
              rule="one random weighted multigraph per case (21 families, n<=7, 12%: n<=10) built in EVERY feasible encoding: Graph<u8> "
                   "direct, Graph<u16> through a shuffled history with junk removed, Graph<usize> permuted, StableGraph<u32>/<u8> with "
